@@ -137,14 +137,16 @@ CHECKS["C01"] = dict(
 )
 CHECKS["C02"] = dict(
     test="TestC02", level="exploration",
-    quick=dict(shards=8, checks=6000, timeout=300),
+    quick=dict(shards=8, checks=6000, timeout=900),
     thorough=dict(shards=16, checks=5000000, timeout=3000, shrinktime="120s"),
     rule="same scenario family as C01, biased to queued channels and to directed prefixes that park the sender at send.beforeFlush / "
          "t.flush / send.beforeRelease / send.afterRelease / around Writev while a writer passes its enqueue; the channel stays open and "
          "nothing else is done. Oracle at the terminal state of the harness-owned executor (no runnable task, so nothing can change any "
          "more): every payload whose call reported success has been handed to the transport, no accepted byte is unflushed, no writer is "
-         "parked for ever. Non-trivial = an enqueue happened while the sender was between its last queue poll and its release. Distinct by case hash.",
-    required=["kind:qblock", "kind:qnonblock", "kind:sync", "queue:1", "queue:2", "queue:>2", "enqueue-in-release-window", "multi-enqueue", "sender-restarted"],
+         "parked for ever. about 1 case in 400 is a real-goroutine stress (2-3 writers x 5-20 writes on a queue of 1-2 with the default executor, 400 "
+         "rounds) for windows without any hook point; there the terminal state is 'all writers returned and no sender action submitted "
+         "or running' (counted by the executor), so a stranded packet is a fact. Non-trivial = an enqueue happened while the sender was between its last queue poll and its release. Distinct by case hash.",
+    required=["kind:qblock", "kind:qnonblock", "kind:sync", "queue:1", "queue:2", "queue:>2", "enqueue-in-release-window", "multi-enqueue", "sender-restarted", "stress"],
     assumptions=_E1_ASSUME + ["'eventually' is decided as stuck-state detection: every action handed to the executor has run to completion"],
 )
 CHECKS["C10"] = dict(
